@@ -155,6 +155,65 @@ theorem cellsInside_cons [NatCast β] (nrows ncols : Nat) (xll yll csz atol : β
   rw [filter_zip_map]
   rfl
 
+theorem table_zip_filter {γ δ ε : Type} (f : γ → δ) (g : δ → Bool) (h : δ → γ → ε) (l : List γ) :
+    ((((l.map f).zip l).zip ((l.map f).map g)).filter (·.2)).map (fun r => h r.1.1 r.1.2) =
+      (l.filter fun c => g (f c)).map fun c => h (f c) c := by
+  induction l with
+  | nil => rfl
+  | cons a t ih =>
+    simp only [List.map_cons, List.zip_cons_cons, List.filter_cons]
+    cases g (f a) <;> simp only [Bool.false_eq_true, if_false, if_true, List.map_cons, ih]
+
+/-- the returned table holds, for each listed cell, the coordinates of its centre and its number -/
+theorem cellsInsideTable_cons [NatCast β] (nrows ncols : Nat) (xll yll csz atol : β) (v0 : β × β)
+    (t : List (β × β)) :
+    cellsInsideTable nrows ncols xll yll csz atol (v0 :: t) =
+      .ok (((List.range (nrows * ncols)).filter fun i =>
+          pointInside atol (v0 :: t) (cellCentre nrows ncols xll yll csz i)).map fun c =>
+        ((cellCentre nrows ncols xll yll csz c).1, (cellCentre nrows ncols xll yll csz c).2, c)) := by
+  simp only [cellsInsideTable]
+  rw [pointsInsidePolygon_cons atol _ v0 t none (by intro n h; cases h)]
+  simp only []
+  rw [table_zip_filter (cellCentre nrows ncols xll yll csz) (pointInside atol (v0 :: t))
+    (fun p c => (p.1, p.2, c))]
+
+/-- the whole call, guard by guard in the order of the code -/
+theorem pointsInsidePolygonCall_spec (atol : β) (ptsWidth : Nat) (pts : List (β × β)) (polyWidth : Nat)
+    (poly : List (β × β)) (inside : Option (Bool × Nat)) :
+    ((∃ n, inside = some (false, n)) → pointsInsidePolygonCall atol ptsWidth pts polyWidth poly inside = .error .insideDtype) ∧
+    ((∃ n, inside = some (true, n) ∧ n ≠ pts.length) →
+      pointsInsidePolygonCall atol ptsWidth pts polyWidth poly inside = .error .insideLength) ∧
+    ((inside = none ∨ inside = some (true, pts.length)) →
+      ((ptsWidth ≠ 2 ∨ polyWidth ≠ 2) →
+        pointsInsidePolygonCall atol ptsWidth pts polyWidth poly inside = .error .shapeAssert) ∧
+      (ptsWidth = 2 → polyWidth = 2 → poly = [] →
+        pointsInsidePolygonCall atol ptsWidth pts polyWidth poly inside = .error .emptyPolygon) ∧
+      (ptsWidth = 2 → polyWidth = 2 → ∀ v0 t, poly = v0 :: t →
+        pointsInsidePolygonCall atol ptsWidth pts polyWidth poly inside =
+          .ok (pts.map (pointInside atol (v0 :: t))))) := by
+  refine ⟨?_, ?_, ?_⟩
+  · rintro ⟨n, rfl⟩; simp [pointsInsidePolygonCall]
+  · rintro ⟨n, rfl, hn⟩; simp [pointsInsidePolygonCall, hn]
+  · intro hin
+    have hpre : ∀ r, (ptsWidth = 2 → polyWidth = 2 →
+        pointsInsidePolygon atol pts poly (inside.map (·.2)) = r →
+        pointsInsidePolygonCall atol ptsWidth pts polyWidth poly inside = r) := by
+      intro r h1 h2 h
+      rcases hin with rfl | rfl <;> simp [pointsInsidePolygonCall, h1, h2] at h ⊢ <;> exact h
+    refine ⟨?_, ?_, ?_⟩
+    · intro hw
+      rcases hin with rfl | rfl <;> rcases hw with hw | hw <;> simp [pointsInsidePolygonCall, hw]
+    · intro h1 h2 hp
+      apply hpre _ h1 h2
+      subst hp
+      rcases hin with rfl | rfl <;> simp [pointsInsidePolygon]
+    · intro h1 h2 v0 t hp
+      apply hpre _ h1 h2
+      subst hp
+      rcases hin with rfl | rfl
+      · exact pointsInsidePolygon_cons atol pts v0 t none (by intro n h; cases h)
+      · exact pointsInsidePolygon_cons atol pts v0 t (some pts.length) (by intro n h; cases h; rfl)
+
 end loop
 
 /-! ### one edge, ordered field -/
